@@ -159,6 +159,110 @@ func findTables(P *Program) map[*ssa.Global][2]int64 {
 			out[g] = [2]int64{ti.lo, ti.hi}
 		}
 	}
+	// package-level slices of integers initialised once from a literal and never written
+	type sinfo struct {
+		lo, hi  int64
+		init    bool
+		started bool
+		bad     bool
+	}
+	sl := map[*ssa.Global]*sinfo{}
+	for fn := range P.AllFuncs {
+		if !inRepo(fn) {
+			continue
+		}
+		isInit := fn.Name() == "init" && fn.Synthetic != ""
+		for _, b := range fn.Blocks {
+			for _, in := range b.Instrs {
+				var ops []*ssa.Value
+				for _, op := range in.Operands(ops) {
+					g, ok := (*op).(*ssa.Global)
+					if !ok {
+						continue
+					}
+					st, ok := deref(g.Type()).Underlying().(*types.Slice)
+					if !ok || !isInteger(st.Elem()) {
+						continue
+					}
+					si := sl[g]
+					if si == nil {
+						si = &sinfo{}
+						sl[g] = si
+					}
+					switch x := in.(type) {
+					case *ssa.Store:
+						if x.Addr != ssa.Value(g) || !isInit || si.init {
+							si.bad = true
+							continue
+						}
+						si.init = true
+						s2, ok := x.Val.(*ssa.Slice)
+						if !ok {
+							si.bad = true
+							continue
+						}
+						al, ok := s2.X.(*ssa.Alloc)
+						if !ok {
+							si.bad = true
+							continue
+						}
+						for _, ref := range *al.Referrers() {
+							ia, ok := ref.(*ssa.IndexAddr)
+							if !ok {
+								continue
+							}
+							for _, r2 := range *ia.Referrers() {
+								if s3, ok := r2.(*ssa.Store); ok && s3.Addr == ia {
+									if c, ok := s3.Val.(*ssa.Const); ok {
+										if v, ok := constBig(c); ok && v.IsInt64() {
+											if !si.started || v.Int64() < si.lo {
+												si.lo = v.Int64()
+											}
+											if !si.started || v.Int64() > si.hi {
+												si.hi = v.Int64()
+											}
+											si.started = true
+											continue
+										}
+									}
+									si.bad = true
+								}
+							}
+						}
+					case *ssa.UnOp:
+						// a load of the slice header: its elements may only be read
+						if x.Op != token.MUL || x.X != ssa.Value(g) || x.Referrers() == nil {
+							continue
+						}
+						for _, ref := range *x.Referrers() {
+							switch y := ref.(type) {
+							case *ssa.IndexAddr:
+								for _, r2 := range *y.Referrers() {
+									if _, isLd := r2.(*ssa.UnOp); !isLd {
+										si.bad = true
+									}
+								}
+							case *ssa.Call:
+								if bi, ok := y.Common().Value.(*ssa.Builtin); !ok || (bi.Name() != "len" && bi.Name() != "cap") {
+									si.bad = true
+								}
+							case *ssa.DebugRef:
+							default:
+								si.bad = true
+							}
+						}
+					default:
+						si.bad = true
+					}
+				}
+			}
+		}
+	}
+	for g, si := range sl {
+		if !si.bad && si.init && si.started {
+			out[g] = [2]int64{si.lo, si.hi}
+		}
+	}
 	return out
 }
 
